@@ -14,11 +14,14 @@
   `Cog.Passes.runChain` over the per-pass models), every document of the source-side language
   `srcDen` of the pre-chain IR (a non-required field may be absent whatever its type) belongs to
   `den` of the post-chain IR, for the same type and fuel (`C01_pass_widening_plain_partial`), hence
-  decodes and re-encodes JSON-equal (`C01_source_roundtrip_plain_partial`).  First extension
-  (`PlainN`): two-branch `T | null` disjunctions in field / element / map-value position, which
-  DisjunctionWithNullToOptional turns into the nullable `T` (`C01_pass_widening_nullable_partial`,
-  one more unit of fuel).  The tie of `Plain`, `PlainN`, `srcDen` and of the pass models to the code
-  is the `c01-src` stream (harness/c01_src.go).
+  decodes and re-encodes JSON-equal (`C01_source_roundtrip_plain_partial`).  Extensions (`PlainX`):
+  two-branch `T | null` disjunctions in field / element / map-value position, which
+  DisjunctionWithNullToOptional turns into the nullable `T`, and anonymous enums, which
+  AnonymousEnumToExplicitType turns into references to new enum objects, under the decidable
+  hypothesis that the generated names are fresh (`C01_pass_widening_ext_partial`, one more unit of
+  fuel).  The full statement is refuted (`C01_pass_widening_counterexample`: a generated name that
+  overwrites a user definition).  The tie of `Plain`, `PlainX`, `srcDen` and of the pass models to
+  the code is the `c01-src` stream (harness/c01_src.go).
 
   What is NOT proved and stays under the correspondence check only (stated in the evidence):
   (b) parser soundness `valid D root d → srcDen (parse_f D) root d`; (c) outside the plain fragment;
@@ -202,47 +205,61 @@ example : Plain exSrc = true ∧
      | _ => false) = true := by
   refine ⟨by decide +kernel, by decide +kernel, by decide +kernel, by decide +kernel, by decide +kernel⟩
 
-/-! ### first extension: `T | null` pairs (JSON Schema `type: [T, "null"]`, CUE `null | T`) -/
+/-! ### extensions: `T | null` pairs (JSON Schema `type: [T, "null"]`, CUE `null | T`) and
+    anonymous enums (fragment `PlainX`) -/
 
-/-- Pass widening on the fragment with `T | null` pairs, through the real regenerated Go chain: the
-    image of a type is `nullOpt t` (the pair replaced by the nullable `T`; `t` itself for a type
-    without pairs, in particular a reference to a named object); one more unit of fuel. -/
-theorem C01_pass_widening_nullable_partial (S S' : Schemas) (hP : PlainN S = true)
-    (hrun : runChain goChain S = .ok S') (n : Nat) (t : Ty) (ht : nrTy t = true) (j : Json)
+/-- Pass widening on the extended fragment, through the real regenerated Go chain.  `PlainX S`
+    (decidable): plain types, two-branch `T | null` pairs of a plain `T`, anonymous non-empty enums in
+    field / element / map-value position whose generated object names (`<Object><Field>`,
+    `<Object>Enum`) are pairwise different and different from the existing object names.
+    For a type `t` without anonymous enum — a plain type, a `T | null` pair, in particular every
+    reference to a named object — the image is `nullOpt t` (the pair replaced by the nullable `T`;
+    `t` itself when it has no pair); one more unit of fuel. -/
+theorem C01_pass_widening_ext_partial (S S' : Schemas) (hX : PlainX S = true)
+    (hrun : runChain goChain S = .ok S') (n : Nat) (t : Ty) (ht : nrTy t = true)
+    (hpt : plainTy (nullOpt t) = true) (j : Json)
     (h : srcDen n S t j = true) : den (n + 1) S' (nullOpt t) j = true :=
-  (widen_chainN goChain (by decide) S S' hP hrun).2 n t j ht h
+  (widen_chainX goChain (by decide) S S' hX hrun).2 n t j ht hpt h
 
-/-- (c) + (d) for named objects of a pre-chain IR with `T | null` pairs -/
-theorem C01_source_roundtrip_nullable_partial (S S' : Schemas) (hP : PlainN S = true)
+/-- (c) + (d) for the named objects of a pre-chain IR of the extended fragment -/
+theorem C01_source_roundtrip_ext_partial (S S' : Schemas) (hX : PlainX S = true)
     (hrun : runChain goChain S = .ok S') (n : Nat) (pkg name : String) (j : Json)
     (h : srcDen n S (.ref pkg name {}) j = true) :
     ∃ j', goRoundTrip (n + 1) S' pkg name j = .ok j' ∧ Json.eqv j' j = true :=
   C01_object_roundtrip_partial S' (n + 1) pkg name j
-    (C01_pass_widening_nullable_partial S S' hP hrun n _ rfl j h)
+    (C01_pass_widening_ext_partial S S' hX hrun n _ rfl rfl j h)
 
 def tNull : Ty := .scalar "null" .nil [] m0
+
+def anonEnum : Ty :=
+  .enum [{ name := "asc", value := .str "asc", kind := "string" },
+         { name := "desc", value := .str "desc", kind := "string" }] m0
 
 def srcRootTyN : Ty :=
   .struct [
     { name := "name", ty := .disj [tStr, tNull] {} m0, required := true },
     { name := "count", ty := .disj [tNull, .scalar "int64" .nil [] m0] {} m0, required := false },
     { name := "tags", ty := .array (.disj [tStr, tNull] {} m0) m0, required := false },
-    { name := "child", ty := .disj [.ref "p" "Root" m0, tNull] {} m0, required := false }] [] none m0
+    { name := "child", ty := .disj [.ref "p" "Root" m0, tNull] {} m0, required := false },
+    { name := "order", ty := anonEnum, required := false },
+    { name := "orders", ty := .array anonEnum m0, required := true }] [] none m0
 
 def exSrcN : Schemas :=
   [{ pkg := "p", objects := [("Root", { name := "Root", selfPkg := "p", selfName := "Root", ty := srcRootTyN })] }]
 
 def exSrcDocN : Json :=
-  .obj [("name", .null), ("tags", .arr [.str "a", .null]), ("child", .obj [("name", .str "y"), ("count", .null)])]
+  .obj [("name", .null), ("tags", .arr [.str "a", .null]), ("orders", .arr [.str "asc"]),
+        ("child", .obj [("name", .str "y"), ("count", .null), ("order", .str "desc"), ("orders", .arr [])])]
 
-/-- non-vacuity: the example is in `PlainN` but not in `Plain`; the hypotheses hold and so does the
-    conclusion evaluated on the model chain -/
-example : PlainN exSrcN = true ∧ Plain exSrcN = false ∧
+/-- non-vacuity: the example is in `PlainX` but not in `Plain`; the hypotheses hold and so does the
+    conclusion evaluated on the model chain; a value outside the anonymous enum is rejected at the source -/
+example : PlainX exSrcN = true ∧ Plain exSrcN = false ∧
     srcDen 8 exSrcN (.ref "p" "Root" {}) exSrcDocN = true ∧
+    srcDen 8 exSrcN (.ref "p" "Root" {}) (.obj [("name", .null), ("orders", .arr [.str "up"])]) = false ∧
     (match runChain goChain exSrcN with
      | .ok S' => den 9 S' (.ref "p" "Root" {}) exSrcDocN && roundTripsOK S' "p" "Root" exSrcDocN
      | _ => false) = true := by
-  refine ⟨by decide +kernel, by decide +kernel, by decide +kernel, by decide +kernel⟩
+  refine ⟨by decide +kernel, by decide +kernel, by decide +kernel, by decide +kernel, by decide +kernel⟩
 
 /-! ### the full statement of (c) is false on the current tree -/
 
